@@ -11,9 +11,10 @@ from harness.trees import enc_pval, enc_tree, enc_val, tree_of, val_of
 
 LEAN = ['ICal.Props.C02']
 LEVEL = 'proof'
-FINGERPRINTS = ['cal.Component._encode', 'cal.Component.add', 'cal.Component.add_component', 'cal.create_single_property',
-                'cal.create_utc_property', 'cal._set_duration', 'cal.Alarm', 'prop.vDDDTypes', 'prop.vDDDLists',
-                'prop.vPeriod', 'prop.vDate', 'prop.vDatetime', 'prop.vBinary', 'prop.TypesFactory']
+FINGERPRINTS = ['cal.Component._encode', 'cal.Component.add', 'cal.create_single_property', 'cal.create_utc_property',
+                'cal._set_duration', 'prop.vDDDTypes.__init__', 'prop.vDDDTypes.to_ical', 'prop.vDDDLists.__init__',
+                'prop.vDDDLists.to_ical', 'prop.vPeriod.__init__', 'prop.vPeriod.to_ical', 'prop.vBinary.__init__',
+                'prop.vCategory.__init__', 'prop.vGeo.__init__', 'prop.vUTCOffset.__init__']
 RULE = ('correspondence: every name of types_map (+ X- names, case variants) x ~75 Python values of every kind (text, int, '
         'float, bool, date, naive/UTC/zoned datetime under both providers, duration, time, valid and invalid periods, geo, '
         'recur, binary, 20 already-typed classes, homogeneous / mixed / mixed-zone / empty lists) x parameter shapes '
@@ -64,9 +65,20 @@ CLASS_TYPES = {
     'vDDDTypes': ['DATE', 'DATE-TIME', 'TIME', 'DURATION', 'PERIOD'], 'vDDDLists': ['DATE', 'DATE-TIME', 'TIME', 'DURATION', 'PERIOD'],
     'vPeriod': ['PERIOD'], 'vUTCOffset': ['UTC-OFFSET'], 'vRecur': ['RECUR'], 'vBinary': ['BINARY'], 'vDuration': ['DURATION'],
 }
-UTC_FORCED = {'DTSTAMP', 'CREATED', 'LAST-MODIFIED'}
+
+
+def _literal_names(key, default):
+    """name tuples written inside Component.add (no live object): read from the translator's output"""
+    try:
+        with open(os.path.join(VERIF, 'lean', 'ICal', 'Gen', 'tables.json')) as f:
+            return {x.upper() for x in json.load(f)[key]}
+    except (OSError, KeyError, ValueError):
+        return set(default)
+
+
+UTC_FORCED = _literal_names('add_utc_names', {'DTSTAMP', 'CREATED', 'LAST-MODIFIED'})      # add() converts datetimes to UTC
 ZONED_OK = {'DTSTART', 'DTEND', 'DUE', 'RECURRENCE-ID', 'RDATE', 'EXDATE'}    # DATE-TIME in any of the three forms
-LIST_NAMES = {'RDATE', 'EXDATE', 'CATEGORIES'}
+LIST_NAMES = _literal_names('add_list_names', {'RDATE', 'EXDATE', 'CATEGORIES'})            # add() keeps a list whole
 
 # descriptors of cal.py (attribute -> property name), by component class name
 SINGLE = {'DTSTART': ['Event', 'Todo', 'Journal', 'TimezoneStandard', 'TimezoneDaylight'], 'DTEND': ['Event'], 'DUE': ['Todo'],
@@ -290,6 +302,21 @@ def exc_name(e):
     return 'err:Other:' + type(e).__name__
 
 
+STR_OK = ('text', 'int', 'float', 'true', 'false', 'date', 'binary', 't-', 'l-text', 'l-empty', 'l-ints', 'l-bools', 'l-typed', 'l-date1',
+          'l-dates', 'l-date-text')
+
+
+def modelled_hint(name, label):
+    """generation bias only: does the model cover `str()` of this value when a textual class is chosen?"""
+    from icalendar.cal import types_factory
+    cls = types_factory.for_property(name).__name__
+    if cls in ('vText', 'vUri', 'vCalAddress', 'vCategory', 'vInline'):
+        return label.startswith(STR_OK)
+    if cls == 'vRecur':
+        return label.startswith(('recur', 't-', 'binary'))
+    return True
+
+
 def add_case(ctx, name, label, thunk, params):
     """one call of add on an empty component, observed on the live object"""
     from icalendar.cal import Component
@@ -347,6 +374,10 @@ def rand_op(rng, kind, values):
     label, thunk = rng.choice(values)
     if r < 0.55:
         name = rng.choice(names)
+        for _ in range(20):
+            if modelled_hint(name, label) or rng.random() < 0.03:
+                break
+            label, thunk = rng.choice(values)
         params = rand_params(rng)
         v = thunk()
         toks = ['A', enc(name)] + tok_upd(params) + tok_arg(v)
@@ -504,10 +535,8 @@ def crosscheck_tables(ctx):
     same('descriptor DURATION', sorted(DURPROP), live)
     for label, got, live in bad:
         ctx.violation('translator-crosscheck', {'table': label}, f'generated {got!r} vs live {live!r}', None)
-    # names inside functions have no live object: their effect is observed by the add correspondence;
-    # here only that the literals are the ones this module's oracle assumes
-    same('add_utc_names', sorted(x.upper() for x in t['add_utc_names']), sorted(UTC_FORCED))
-    same('add_list_names', sorted(x.upper() for x in t['add_list_names']), sorted(LIST_NAMES))
+    # the name tuples inside Component.add have no live object: their effect is observed by the add
+    # correspondence (every name x every datetime kind / list)
 
 
 def rfc_table_cases(ctx):
@@ -542,14 +571,21 @@ def correspondence(ctx):
                 if provider == 'pytz' and 'zoned' not in label:
                     continue
                 for name in names:
+                    if not modelled_hint(name, label) and name not in ('summary', 'url', 'attendee', 'categories', 'rrule', 'X-FOO'):
+                        continue     # str() of such an object is outside the model: a few names keep the region visible
                     add_case(ctx, name, label, thunk, {})
                 for name in focus:
-                    for ps in PARAM_SHAPES[1:]:
+                    for i, ps in enumerate(PARAM_SHAPES[1:]):
+                        if i and not modelled_hint(name, label):
+                            continue
                         add_case(ctx, name, label, thunk, ps)
-            for _ in range(ctx.vol(400, 10)):
+            for _ in range(ctx.vol(3000, 10)):
                 label, thunk = rng.choice(values)
-                add_case(ctx, rng.choice(names), label, thunk, rand_params(rng))
-            for _ in range(ctx.vol(300 if provider == 'zoneinfo' else 100, 10)):
+                name = rng.choice(names)
+                if not modelled_hint(name, label) and rng.random() < 0.9:
+                    continue
+                add_case(ctx, name, label, thunk, rand_params(rng))
+            for _ in range(ctx.vol(2500 if provider == 'zoneinfo' else 800, 10)):
                 build_case(ctx, rng, values)
     finally:
         icalendar.use_zoneinfo()
@@ -876,8 +912,19 @@ def build_oracle_tree(rng, kind='VCALENDAR', depth=0):
                 continue
             if name in ('DTEND', 'DUE') and any(r.name == 'DURATION' for r in node.recs):
                 continue
+            deleted = []
+            if vk == 'text' and rng.random() < 0.15:
+                # an already-typed value with its own parameters; `parameters=` deletes one of them with None
+                api = vText(value, params={'X-DEL': 'gone', 'X-KEEP': 'k'})
+                params = dict(params)
+                params['x-del'] = None
+                kept = dict(kept)
+                kept['X-KEEP'] = 'k'
+                deleted = ['X-DEL']
             c.add(spelled, api, parameters=dict(params))
-            node.recs.append(Rec(name, vk, value, kept, rk, zs))
+            rec = Rec(name, vk, value, kept, rk, zs)
+            rec.deleted = deleted
+            node.recs.append(rec)
     nested = {'VCALENDAR': ['VEVENT', 'VTODO', 'VJOURNAL', 'VFREEBUSY', 'VTIMEZONE', 'X-FOO'], 'VEVENT': ['VALARM', 'X-FOO'],
               'VTODO': ['VALARM'], 'VTIMEZONE': ['STANDARD', 'DAYLIGHT'], 'X-FOO': ['X-FOO', 'VEVENT']}.get(kind, [])
     if nested and depth < 3:
@@ -993,6 +1040,7 @@ def check_node(ctx, inp, built, node, scanned, parsed, path):
         ok = False
         ctx.violation(kind, inp, f'{path}: {detail}', cls)
     sname, slines, ssubs = scanned
+    ctx.count('oracle:component:' + node.kind)
     if sname != node.kind:
         bad('emitted-nesting', f'emitted component {sname} where {node.kind} was built')
         return False
@@ -1010,6 +1058,11 @@ def check_node(ctx, inp, built, node, scanned, parsed, path):
         default = RFC.get(name, ('TEXT', [], False))[0]
         for rec, (params, value) in zip(recs, by_name[name]):
             cls = classify_rec(rec)
+            ctx.count('oracle:value:' + rec.kind)
+            if rec.zones:
+                ctx.count('oracle:zoned-values')
+            if any(rk in RFC_KIND.values() and rk != default for rk in rec.rfc_kinds):
+                ctx.count('oracle:non-default-type')
             for rk in set(rec.rfc_kinds):
                 if rk in RFC_KIND.values() and rk != default:
                     if params.get('VALUE') != [rk]:
@@ -1059,6 +1112,9 @@ def check_node(ctx, inp, built, node, scanned, parsed, path):
             for k, v in rec.params.items():
                 if want_params.get(k.upper()) != norm_param(v):
                     bad('supplied-param-lost', f'{name}: parameters= {k}={v!r} not on the built value ({want_params})')
+            for k in getattr(rec, 'deleted', []):
+                if k in want_params:
+                    bad('deleted-param-kept', f'{name}: parameters= {k}=None did not delete the parameter ({want_params})')
             got_params = {k.upper(): norm_param(v) for k, v in p.params.items()}
             if got_params != want_params:
                 bad('parsed-params', f'{name}: {got_params} vs {want_params}', cls)
@@ -1097,11 +1153,14 @@ def tzname_has_params(node):
     return any(r.name == 'TZNAME' and r.params for r in node.recs) or any(tzname_has_params(s) for s in node.subs)
 
 
-def roundtrip_case(ctx, rng, label, kind='VCALENDAR'):
+def roundtrip_case(ctx, tree_seed, label, kind='VCALENDAR'):
+    """one random tree, a function of (tree_seed, provider, kind) only, so that a replay rebuilds it"""
+    import random
+
     import icalendar
-    state = rng.getstate()
+    rng = random.Random(tree_seed)
     c, node = build_oracle_tree(rng, kind)
-    inp = {'seed_state_hash': hash(state) & 0xffffffff, 'provider': label, 'tree': describe(node)}
+    inp = {'tree_seed': tree_seed, 'tree_kind': kind, 'provider': label, 'tree': describe(node)}
     ctx.evaluated(('rt', label, repr(inp['tree'])), nontrivial=bool(node.recs or node.subs))
     try:
         data = c.to_ical()
@@ -1242,29 +1301,31 @@ def oracle(ctx):
                 icalendar.use_pytz()
             else:
                 icalendar.use_zoneinfo()
-            n = ctx.vol(250 if provider == 'zoneinfo' else 120, 10)
+            n = ctx.vol(3000 if provider == 'zoneinfo' else 1200, 10)
             for i in range(n):
                 if ctx.time_left() < 20:
                     ctx.notes.append(f'oracle stopped early at {provider}:{i} (time budget)')
                     break
-                roundtrip_case(ctx, ctx.rng, provider, 'VCALENDAR' if i % 4 else ctx.rng.choice(COMP_KINDS[1:]))
+                roundtrip_case(ctx, f'{ctx.seed}:{provider}:{i}', provider, 'VCALENDAR' if i % 4 else COMP_KINDS[1 + (i // 4) % (len(COMP_KINDS) - 1)])
     finally:
         icalendar.use_zoneinfo()
 
 
 def replay(ctx, data):
     """re-run the deterministic parts and every witness; a random tree is re-found by its seed"""
+    import icalendar
     inp = data.get('input', {})
-    if 'witness' in inp or 'name' in inp or 'table' in inp:
-        import icalendar
+    if 'tree_seed' in inp:
+        try:
+            getattr(icalendar, 'use_' + inp.get('provider', 'zoneinfo'))()
+            roundtrip_case(ctx, inp['tree_seed'], inp.get('provider', 'zoneinfo'), inp.get('tree_kind', 'VCALENDAR'))
+        finally:
+            icalendar.use_zoneinfo()
+    else:
         icalendar.use_zoneinfo()
         witnesses(ctx)
         types_clause(ctx)
         crosscheck_tables(ctx)
-    else:
-        import random
-        ctx.rng = random.Random(data.get('seed', 0) * 1000003 + 2)
-        oracle(ctx)
     want = (data.get('kind'), data.get('class'))
     hits = [v for v in ctx.violations if (v['kind'], v['cls']) == want]
     for v in hits[:3]:
